@@ -21,7 +21,7 @@ ASSUMPTIONS = [
     'IoU within 1e-9 of t but not exactly t is ambiguous; an exact tie is decisive when the exact rational IoU equals the float threshold (dyadic values)',
     'heights are compared exactly (the implementation compares the stored floats; the alphabet is exactly representable)',
 ]
-BOUNDS = {'quick': {'A': 'n=3,4 complete x all 2^n knee lists', 'A12': 'n=5 x all knee lists', 'A1': 'n=6 x all knee lists (worst-knee), restricted lists (corner)'},
+BOUNDS = {'quick': {'re-embedded (x,y*2^-15; y*2^-34; x*2^20,y*2^-50)': 'A12 n=4, G12Y013 n=5', 'A': 'n=3,4 complete x all 2^n knee lists', 'A12': 'n=5 x all knee lists', 'A1': 'n=6 x all knee lists (worst-knee), restricted lists (corner)'},
           'thorough': {'A': 'n<=5 complete x all knee lists', 'A12': 'n=6', 'A1': 'n=7'}}
 TECHNIQUE = 'bounded-exhaustive enumeration of curves x all knee subsets x tie thresholds on the real filters against exact-rational reference rules'
 LEVEL_TEXT = ('Model checking: every ascending knee list of every small curve (equal heights, plateaus, flat neighbours included), thresholds on/between '
@@ -38,6 +38,9 @@ def units(tier, seed):
         plan = [('A', 3, 2), ('A', 4, 16), ('A', 5, 320), ('A12', 6, 320), ('A1', 7, 128)]
     b = curves.bonus(seed)
     plan.append((b.name, 4, 32))
+    for sx, sy in ((2.0 ** -15, 2.0 ** -15), (1.0, 2.0 ** -34), (2.0 ** 20, 2.0 ** -50)):
+        plan.append((curves.scaled(curves.A12, sx, sy).name, 4, 8))
+        plan.append((curves.scaled(curves.G12Y013, sx, sy).name, 5, 16))
     return [(prof, n, k, K) for prof, n, K in plan for k in range(K)]
 
 
